@@ -1,5 +1,5 @@
 SPECIFICATION Spec
-CONSTANTS NRows = 3  MaxV = 2  Upw = 2  MinPts = 1  NDim = 3  MaskSpace = "position"
+CONSTANTS NRows = 3  MaxV = 2  Upw = 2  MinPts = 1  NDim = 3  MaskSpace = "position"  WeightSpace = "sliced"  Opts = {"none", "wlsqarr"}
 CHECK_DEADLOCK FALSE
 INVARIANT IntervalOwnData
 INVARIANT KeptExactly
